@@ -1,4 +1,5 @@
 import TangeloModel.AnsatzUpdate
+import TangeloProofs.Props.C06
 import Mathlib.Data.List.Basic
 import Mathlib.Data.List.Nodup
 /-!
@@ -171,4 +172,61 @@ theorem history_eq_build (ang : A → P) (dflt : A) (order : List W) (pre post :
 example : updateBlock (fun (c : Int) => 2 * c) ["XY", "YX", "ZZ"] 1 [7, 2, 4, 6, 9] [("ZZ", 5), ("XY", -1), ("YX", 0)] = [7, -2, 0, 10, 9] := by decide
 example : buildBlock (fun (c : Int) => 2 * c) ["XY", "YX", "ZZ"] (coefOf 0 [("ZZ", 5), ("XY", -1), ("YX", 0)]) = [-2, 0, 10] := by decide
 
+end Tangelo.C07
+
+/-! ## all-zero parameters prepare the reference state (excitation-style ansaetze) -/
+namespace Tangelo.C07
+open Tangelo PauliExp C06
+variable {S : Type} [CommRing S] [StarRing S]
+
+/-- **one excitation block at parameter zero is the identity**: the gate list emitted for `exp(-i·0·P)` acts as the
+    identity on every state - for every word, in both branches of the angle rule (`0` and `4π`) -/
+theorem zero_coefficient_block (k : Consts S) (L : k.Laws) (hp : HalfPi k) (w : PWord) (nonneg var : Bool)
+    (hne : w ≠ []) (hnd : (w.map (·.1)).Nodup) :
+    ∃ gs ops, gates w 0 nonneg var none = some gs ∧ gatesToOps gs = some ops ∧ ∀ ψ : State S, semOps k ops ψ = ψ := by
+  obtain ⟨gs, ops, h1, h2, h3⟩ := exp_pauliword_general k L hp w 0 nonneg var none hne hnd (by simp)
+  refine ⟨gs, ops, h1, h2, ?_⟩
+  intro ψ
+  funext x
+  rw [h3 ψ x]
+  have h0 : (0 : Ang) + 0 = 0 := by decide
+  simp [h0, L.cos_zero, L.misin_zero]
+
+/-- blocks emitted one after the other -/
+def blocks : List (PWord × Bool × Bool) → Option (List Gate)
+  | [] => some []
+  | (w, nonneg, var) :: rest => match gates w 0 nonneg var none, blocks rest with
+    | some g, some gs => some (g ++ gs)
+    | _, _ => none
+
+/-- **all-zero parameters prepare exactly the reference state**: an ansatz circuit that is a reference-state
+    preparation followed by any number of Pauli-word exponential blocks (UCCSD, UpCCGSD, QCC, ILC, VSQS, QMF-free part)
+    prepares, with every coefficient equal to zero, the state the reference preparation alone prepares. -/
+theorem all_zero_parameters_reference (k : Consts S) (L : k.Laws) (hp : HalfPi k) (ref : List Op)
+    (ws : List (PWord × Bool × Bool)) (hws : ∀ b ∈ ws, b.1 ≠ [] ∧ (b.1.map (·.1)).Nodup) :
+    ∃ gs ops, blocks ws = some gs ∧ gatesToOps gs = some ops ∧
+      ∀ ψ : State S, semOps k (ref ++ ops) ψ = semOps k ref ψ := by
+  have key : ∃ gs ops, blocks ws = some gs ∧ gatesToOps gs = some ops ∧ ∀ ψ : State S, semOps k ops ψ = ψ := by
+    induction ws with
+    | nil => exact ⟨[], [], rfl, rfl, fun ψ => rfl⟩
+    | cons b rest ih =>
+      obtain ⟨w, nonneg, var⟩ := b
+      obtain ⟨gs, ops, hg, ho, hs⟩ := ih (fun b hb => hws b (by simp [hb]))
+      have hb := hws (w, nonneg, var) (by simp)
+      obtain ⟨g1, o1, hg1, ho1, hs1⟩ := zero_coefficient_block k L hp w nonneg var hb.1 hb.2
+      refine ⟨g1 ++ gs, o1 ++ ops, by simp [blocks, hg1, hg], gatesToOps_append' _ _ _ _ ho1 ho, ?_⟩
+      intro ψ
+      rw [semOps_append, hs1, hs]
+  obtain ⟨gs, ops, h1, h2, h3⟩ := key
+  exact ⟨gs, ops, h1, h2, fun ψ => by rw [semOps_append, h3]⟩
+
+/-- the same for the exact amplitudes the model driver computes -/
+theorem all_zero_parameters_reference_exec (ref : List Op)
+    (ws : List (PWord × Bool × Bool)) (hws : ∀ b ∈ ws, b.1 ≠ [] ∧ (b.1.map (·.1)).Nodup) :
+    ∃ gs ops, blocks ws = some gs ∧ gatesToOps gs = some ops ∧
+      ∀ ψ : State Cyc, semOps cycConsts (ref ++ ops) ψ = semOps cycConsts ref ψ :=
+  all_zero_parameters_reference cycConsts cycConsts_laws halfPi_exec ref ws hws
+
+/-- non-vacuity: two blocks (a double-excitation word and a single-excitation word, one in each angle branch) -/
+example : blocks [([(0, .X), (1, .Y), (2, .X), (3, .X)], true, true), ([(0, .Y), (2, .X)], false, true)] ≠ none := by decide
 end Tangelo.C07
